@@ -69,7 +69,8 @@ class PolyDisc(Discipline):
         self.run_log.append(_snapshot(input_data, self.in_names))
         x = self._concat(input_data)
         s2 = float(np.dot(x, x))
-        out = {o: self.A[o] @ x + self.b[o] + self.q[o] * s2 for o in self.out_names}
+        # (the inputs of a "symmetric" body may be shorter than declared: the rows of A are constant)
+        out = {o: self.A[o][:, : len(x)] @ x + self.b[o] + self.q[o] * s2 for o in self.out_names}
         if self.run_sets_jac:
             self._fill_jac(input_data)
             self._has_jacobian = True
@@ -80,12 +81,13 @@ class PolyDisc(Discipline):
         x = self._concat(data)
         jac: dict[str, dict[str, Any]] = {}
         for o in self.out_names:
-            full = self.A[o] + 2.0 * np.outer(self.q[o], x)
+            full = self.A[o][:, : len(x)] + 2.0 * np.outer(self.q[o], x)
             jac[o] = {}
             k = 0
             for n in self.in_names:
-                block = np.array(full[:, k : k + self.in_sizes[n]])
-                k += self.in_sizes[n]
+                size = np.asarray(data[n]).size
+                block = np.array(full[:, k : k + size])
+                k += size
                 jac[o][n] = csr_array(block) if (o, n) in self.sparse_blocks else block
         self.jac = jac
 
